@@ -4,6 +4,8 @@ import (
 	"go/constant"
 	"go/token"
 	"go/types"
+	"golang.org/x/tools/go/ssa/ssautil"
+	"sync"
 
 	"golang.org/x/tools/go/ssa"
 )
@@ -366,6 +368,9 @@ func (r *Reach) eval(v ssa.Value, st *state) AV {
 					return a
 				}
 			}
+			if g, ok := x.X.(*ssa.Global); ok && GlobalNonNil(g) {
+				return AVNonNil
+			}
 			return AVTop
 		}
 		return AVTop
@@ -410,6 +415,90 @@ var (
 	nonNilMemo = map[[2]any]bool{}
 	nonNilBusy = map[*ssa.Function]bool{}
 )
+
+var initReach = map[*ssa.Function]*Reach{}
+
+var (
+	globalOnce sync.Once
+	globalInfo map[*ssa.Global]*globalUse
+)
+
+type globalUse struct {
+	stores  []*ssa.Store
+	escapes bool
+	memo    int // 0 unknown, 1 non-nil, 2 not
+}
+
+// GlobalNonNil reports whether the package-level variable g holds a non-nil value whenever code runs after
+// package initialisation: its address is only ever loaded from and stored to, every store sits in the
+// package initialiser (the variable's own initialisation expression) and stores a provably non-nil value
+// (e.g. `var ErrX = errors.New(..)`).
+func GlobalNonNil(g *ssa.Global) bool {
+	if g == nil || g.Pkg == nil {
+		return false
+	}
+	globalOnce.Do(func() {
+		globalInfo = map[*ssa.Global]*globalUse{}
+		for fn := range ssautil.AllFunctions(g.Pkg.Prog) {
+			if fn.Blocks == nil {
+				continue
+			}
+			for _, b := range fn.Blocks {
+				for _, in := range b.Instrs {
+					for _, op := range in.Operands(nil) {
+						gg, ok := (*op).(*ssa.Global)
+						if !ok {
+							continue
+						}
+						u := globalInfo[gg]
+						if u == nil {
+							u = &globalUse{}
+							globalInfo[gg] = u
+						}
+						switch x := in.(type) {
+						case *ssa.UnOp:
+							if x.Op != token.MUL {
+								u.escapes = true
+							}
+						case *ssa.Store:
+							if x.Addr == ssa.Value(gg) && x.Val != ssa.Value(gg) {
+								u.stores = append(u.stores, x)
+							} else {
+								u.escapes = true
+							}
+						default:
+							u.escapes = true
+						}
+					}
+				}
+			}
+		}
+	})
+	u := globalInfo[g]
+	if u == nil || u.escapes || len(u.stores) == 0 {
+		return false
+	}
+	if u.memo != 0 {
+		return u.memo == 1
+	}
+	u.memo = 2
+	for _, st := range u.stores {
+		fn := st.Parent()
+		if fn == nil || fn.Name() != "init" || fn.Pkg != g.Pkg || fn.Synthetic == "" {
+			return false
+		}
+		r := initReach[fn]
+		if r == nil {
+			r = Analyze(fn, ReachOpts{})
+			initReach[fn] = r
+		}
+		if r.FactAt(st, st.Val, false).K != NonNil {
+			return false
+		}
+	}
+	u.memo = 1
+	return true
+}
 
 // AlwaysNonNil reports whether result #idx of fn is non-nil on every return
 // (interprocedural summary, memoised; recursion and unknown bodies give false).
